@@ -23,7 +23,8 @@ CONSTANTS Widths,       \* the large dimension
           Part,         \* "wide" | "tall" | "mid" | "huge" | "sweep": which cases this run emits (runs are independent)
           SweepVals     \* byte values for the sweep part
 
-ASSUME LawsPix == IF Part = "sweep" THEN SweepLaws ELSE PixLaws
+\* the laws of the patterns are checked by the run that emits the mid-size cases (resp. the sweep cases); the runs are parts of one check
+ASSUME LawsPix == IF Part = "sweep" THEN SweepLaws ELSE IF Part = "mid" THEN PixLaws ELSE TRUE
 
 \* the index laws on large sizes, by counting (the pairwise formulation is quadratic)
 BigLaw(w, W, H) ==
@@ -38,7 +39,7 @@ ASSUME LawsBig == \A w \in Writers : IF Part = "wide" THEN BigLaw(w, 1025, 2) EL
 \* huge: one dimension around 2^16 (a 16-bit size or index somewhere), and images of about 2^16 pixels
 Sizes == IF Part = "wide" THEN Widths \X Shorts
          ELSE IF Part = "tall" THEN Shorts \X Widths
-         ELSE IF Part = "huge" THEN (Widths \X Shorts) \cup (Shorts \X Widths) \cup {<<256, 256>>, <<255, 257>>}
+         ELSE IF Part = "huge" THEN (Widths \X Shorts) \cup (Shorts \X Widths) \cup (IF 2 \in Shorts THEN {<<256, 256>>, <<255, 257>>} ELSE {})
          ELSE IF Part = "sweep" THEN {<<2, 2>>, <<2, 1>>, <<1, 2>>}
          ELSE {<<300, 200>>}
 
